@@ -58,6 +58,17 @@ def walk(root):
             st.extend(n.children)
         return " ".join(sorted(ws))
 
+    def has_words(node):
+        st = [node]
+        while st:
+            x = st.pop()
+            if type(x).__name__ == "Text" and word.search(x.caption or ""):
+                return True
+            if type(x).__name__ in ("ArticleLink", "NamespaceLink", "InterwikiLink", "SpecialLink", "Link") and not x.children:
+                return True
+            st.extend(x.children)
+        return False
+
     def rec(node, secs, depth, ref, tabs):
         n = type(node).__name__
         if n == "Text":
@@ -79,8 +90,11 @@ def walk(root):
         elif n == "Item":
             depth += 1
         elif n == "Reference":
-            refcount[0] += 1
-            ref = refcount[0]
+            # identity = ordinal among the references that hold text (an empty re-use of a named
+            # reference may legitimately disappear)
+            if has_words(node):
+                refcount[0] += 1
+                ref = refcount[0]
         elif n == "Table":
             rows = [c for c in node.children if type(c).__name__ == "Row"]
             cols = max([len([x for x in r.children if type(x).__name__ == "Cell"]) for r in rows] or [0])
@@ -183,6 +197,30 @@ def check_text(text, lang):
     return res, stats
 
 
+def max_table_chars(doc):
+    """display-text size of the largest top-level table of the document (nested tables count towards it)"""
+    best = [0]
+
+    def size(b):
+        fake = ("doc", [b], [])
+        return sum(len(w) + 1 for w, _ in grammar.denotation(fake))
+
+    def blocks(bs):
+        for b in bs:
+            if b[0] == "table":
+                best[0] = max(best[0], size(b))
+
+    def section(s):
+        blocks(s[3])
+        for sub in s[4]:
+            section(sub)
+
+    blocks(doc[1])
+    for s in doc[2]:
+        section(s)
+    return best[0]
+
+
 def run_shard(desc, R):
     import logging
     logging.disable(logging.CRITICAL)
@@ -197,6 +235,10 @@ def run_shard(desc, R):
 def one(R, seed, lang, maxwords):
     r2 = random.Random(seed)
     doc, text = grammar.make(r2, maxwords=maxwords, for_clean=True)
+    if max_table_chars(doc) >= 2300:
+        # the quantifier stays below the cleaner's size heuristics (tables < 2500 characters)
+        R.skip()
+        return
     case = {"gen_seed": seed, "lang": lang, "maxwords": maxwords, "text": text}
     R.breadcrumb(json.dumps(case))
     kinds = {lab[0] for _, c in grammar.denotation(doc) for lab in c}
